@@ -2,7 +2,7 @@
 from .. import core
 from ..core import Suite, onat, b01, ohx
 
-LEAN_TARGETS = ['Uds.Props.C05']
+LEAN_TARGETS = ['Uds.Props.C05', 'Uds.Props.C05Hist']
 ASSUMPTIONS = [
     'virtual time: udsoncan.client.time is replaced by an exact clock that only advances inside the stub connection\'s wait; '
     'real elapsed time between two monotonic() reads, the accuracy of queue.get(timeout) and thread scheduling are runtime '
